@@ -438,7 +438,7 @@ func TestC10(t *testing.T) {
 		}
 		return
 	}
-	total := 32 / cfg.NShards
+	total := 160 / cfg.NShards
 	if cfg.Thorough() {
 		total = 2000 / cfg.NShards
 	}
